@@ -2,7 +2,8 @@
    CW  a client program run against TerminalWriter over a view of a canvas of sentinel
        cells, observed twice: as given, and with the chunks of every write merged;
    CT  Text::layout followed by Text::render into a view at least as large as the
-       reported size, inside a canvas of sentinel cells.
+       reported size, inside a canvas of sentinel cells;
+   CJ  a Text deserialised from a JSON document (TextDeserializer): cells, wraps flag, writing face.
    First component: the model (Render/Writer.v) reproduces canvas, flags, cursor, layout.
    Second component (specification side): sentinels outside the window of a plain matrix
    are intact; the canvas does not depend on the partition of the bytes; the printable
@@ -75,12 +76,17 @@ Definition model_w (H W len : nat) (vops : list vop) (custom : option shape) (ct
   | _ => WPanic
   end.
 
+Definition split_items (items : list sitem) : list sitem :=
+  flat_map (fun it => match it with SBytes b => map (fun x => SBytes [x]) b | p => [p] end) items.
+
 (* every byte of a write in a call of its own *)
 Definition split_op (o : wop) : wop :=
   match o with
   | OWrite chunks => OWrite (map (fun b => [b]) (concat chunks))
   | OWriteU chunks => OWriteU (map (fun b => [b]) (concat chunks))
   | OWriteT chunks => OWriteT (map (fun b => [b]) (concat chunks))
+  | OSessU items => OSessU (split_items items)
+  | OSessT items => OSessT (split_items items)
   | other => other
   end.
 
@@ -205,11 +211,54 @@ Definition holds_t (H W : nat) (vops : list vop) (ctx : rctx) (cells : list ccel
           else true)
   end.
 
+(* ---------- CJ: a Text deserialised from a JSON document ---------- *)
+Inductive jres := JPanic | JError | JRes (cells : list ccell) (wraps : bool) (f : face).
+
+Definition face_eqb_n (a b : face) : bool := nlist_eqb (firstn 3 (enc_cell (mkCell a (KChar 0)))) (firstn 3 (enc_cell (mkCell b (KChar 0)))).
+
+Definition kind_eqb (a b : kind) : bool :=
+  match a, b with
+  | KChar x, KChar y => N.eqb x y
+  | KGlyph i h w fb, KGlyph i' h' w' fb' => N.eqb i i' && (h =? h') && (w =? w') && nlist_eqb fb fb'
+  | KImage i h w, KImage i' h' w' => N.eqb i i' && (h =? h') && (w =? w')
+  | _, _ => false
+  end.
+
+Definition cell_eqb_full (a b : ccell) : bool := face_eqb_n (c_face a) (c_face b) && kind_eqb (c_kind a) (c_kind b).
+
+Definition model_j (doc : jtext) : jres :=
+  let st := jt_collect j0 doc in JRes (j_cells st) (j_wraps st) (j_face st).
+
+Definition jres_eqb (a b : jres) : bool :=
+  match a, b with
+  | JRes c w f, JRes c' w' f' => all2 cell_eqb_full c c' && Bool.eqb w w' && face_eqb_n f f'
+  | JPanic, JPanic | JError, JError => true
+  | _, _ => false
+  end.
+
+(* specification side, written without the model's state machine: the characters and glyphs of the
+   document in document order, nothing else; the writing face is the default one afterwards *)
+Fixpoint doc_kinds (t : jtext) {struct t} : list kind :=
+  match t with
+  | JStr chars => map KChar chars
+  | JArr items => flat_map doc_kinds items
+  | JObj _ _ (JBGlyph k) => [k]
+  | JObj _ _ (JBText t') => doc_kinds t'
+  | JObj _ _ JBNone => []
+  end.
+
+Definition holds_j (doc : jtext) (impl : jres) : bool :=
+  match impl with
+  | JRes cells _ f => all2 kind_eqb (map c_kind cells) (doc_kinds doc) && face_eqb_n f face0
+  | _ => false
+  end.
+
 Inductive c09_case :=
 | CW (H W len : nat) (vops : list vop) (custom : option shape) (glyphs : bool) (cwt : list (N * nat))
      (d : dfa) (sgr : list (list N * face * face)) (ops : list wop) (impl impl_merged impl_bytes : wres)
 | CT (H W : nat) (vops : list vop) (glyphs : bool) (cwt : list (N * nat)) (cells : list ccell) (wraps : bool)
-     (minh minw maxh maxw pr pc : nat) (impl : tres).
+     (minh minw maxh maxw pr pc : nat) (impl : tres)
+| CJ (doc : jtext) (impl : jres).
 
 Definition c09_check (c : c09_case) : bool * bool :=
   match c with
@@ -231,6 +280,7 @@ Definition c09_check (c : c09_case) : bool * bool :=
       let ctx := mkCtx glyphs cwt dfa0 [] in
       ( tres_eqb (model_t H W vops ctx cells wraps minh minw maxh maxw pr pc) impl,
         holds_t H W vops ctx cells wraps minh minw maxh maxw pr pc impl )
+  | CJ doc impl => ( jres_eqb (model_j doc) impl, holds_j doc impl )
   end.
 
 Definition c09_report := report c09_check.
